@@ -36,7 +36,8 @@ RULE = ('cases: problems whose goal holds the caching features the parent stream
         'good_handover, good_handover_aggs); they have to agree with the structural reading the oracle classes are derived from. '
         'non-trivial = distinct histories with at least one step that changed the tours.')
 TRUSTED = ['harness `rebuild_full`: tours + pending lists copied into a new SolutionContext with RouteState::default(), '
-           'GoalContext::accept_route_state on every tour, restore()',
+           'GoalContext::accept_route_state on every tour, the stale flag set again (so the result does not depend on the number '
+           'of rounds accept_solution_state needs), restore()',
            'the hooks RouteState/SolutionState::verif_digest (values are rendered WITHOUT their keys: the comparison is between '
            'multisets of rendered values; an entry that two keys render alike is attributed to a work balance value first) and the '
            'insertion observer (cfg(reinterpretcat_vrp_verif))',
@@ -572,10 +573,12 @@ def bal_status(c, kind):
     return o['pos'] != 'before_cost'
 
 
+# F3 and F5 are repaired in /repo (5d6f1d2, 38e261f): the classes stay, they are not known findings any more (regression mutants C05-17 / C05-18)
 F3 = 'work-balance-route-value-not-refreshed-at-handover'
 F4 = 'work-balance-route-value-computed-before-the-state-it-reads-is-refreshed'
 F4A = 'work-balance-aggregate-computed-before-the-state-it-reads-is-refreshed'
 F5 = 'solution-aggregate-counts-tour-without-jobs-removed-after-the-refresh'
+F6 = 'solution-aggregate-counts-tour-emptied-by-a-state-handler-of-the-same-refresh'
 
 
 def route_violations(c, spec, sched, live_dig, live_sched, where, target=None):
@@ -662,7 +665,10 @@ def solution_violations(c, impl, k, d, route_values, aggs, fast):
         if not bal_status(c, kind):
             cls = F4A
         elif explains_emptied(c, [r for r in d['routes'] if O.route_jobs(r)], kind, route_values[kind], live):
-            cls = F5
+            # since /repo 38e261f restore / finalize drop the job-less tours BEFORE the handlers run: a job-less tour can be counted
+            # only when a handler of the same refresh empties it - remove_trivial_markers taking an obsolete marker, the last
+            # activity, out of a tour - which needs marker jobs in the problem (finding C05-F6); without them it is the repaired C05-F5
+            cls = F6 if ('reload' in c or 'recharge' in c) else F5
         else:
             cls = 'stale-solution-aggregate-' + kind
         out.append((cls, 'the objective %s reads %r (solution state %s); the fold over the tours gives %r' % (kind, live, sdig, aggs[kind])))
@@ -791,7 +797,8 @@ def oracle_model(c, impl, model):
     for kind in objective_kinds(c):
         if kind in BALANCE:
             k = [k_ for k_, n in AGG_KEYS.items() if n == kind][0]
-            if (k in g_aggs) != bal_status(c, kind) or k in g_hand:
+            # since /repo 5d6f1d2 the per-route value is refreshed at hand-over: good exactly when its inputs are refreshed before it
+            if (k in g_aggs) != bal_status(c, kind) or (k in g_hand) != bal_status(c, kind):
                 out.append({'class': 'table-analysis-disagreement',
                             'what': 'work balance %s: Coq good_handover_aggs %r / good_handover %r, structural reading %r' % (
                                 kind, g_aggs, g_hand, bal_status(c, kind))})
